@@ -285,6 +285,15 @@ def run_check(mod, args):
             "workers": args.workers or pool.default_workers(),
             "violations_reported": reported,
         }
+        mpath = os.path.join(common.VERIF, "selftest", "mutants_last.json")
+        if os.path.exists(mpath):
+            try:
+                with open(mpath) as fh:
+                    last = json.load(fh)
+                cov["mutants_killed_in_last_selftest"] = sorted(m["id"] for m in last if m.get("prop") == prop and m.get("killed"))
+                cov["mutants_survived_in_last_selftest"] = sorted(m["id"] for m in last if m.get("prop") == prop and not m.get("killed"))
+            except (OSError, ValueError):
+                pass
         if hasattr(mod, "coverage_extra"):
             cov.update(mod.coverage_extra(stats, tier))
         ev = {
